@@ -26,7 +26,8 @@ BOUNDS = {
 OUTSIDE = 'Distinctness is decided only between caps (pairwise different signatures of the major axis); NOT decided (not claimed): distinctness of codes within one cap, and that the major axes cover all directions to ~4 degrees -- a ' \
           'forall-direction/exists-code statement over transcendental geometry, outside this technique; float64 rounding; numeric values of cos/sin'
 STUBS = ['np.cos / np.sin of the azimuth: fresh reals c, s with c^2 + s^2 = 1, s > 0', 'np.sqrt, np.linalg.norm: non-negative root witnesses',
-         'np.floor(np.sqrt(b)) of the in-cap cell index: the ring index of the work item (b is confined to [it^2, (it+1)^2))']
+         'np.floor: fresh integer k with k <= x < k+1; the ring index the decoder computes (np.floor(np.sqrt(b)) or np.searchsorted in a table) '
+         'is proved equal to the ring of the work item (key euler:ring) and then replaced by that constant']
 ASSUMPTIONS = ['floats are reals', 'code in [0, 65340)']
 MUST_COVER = {'abacusnbody.data.compaso_halo_catalog._unpack_euler16': 0}
 FUNCS = [chc._unpack_euler16]
@@ -41,13 +42,35 @@ def make_ns():
     d = dict(rebind.NP.__dict__)
     d.pop('_name', None)
 
+    def ring_observed(values, dt):
+        """The decoder's own ring index (however it computes it: floor(sqrt(b)) or a table lookup) is observed here: the
+        solver must show that it equals the ring of the work item for every cell b in [it^2, (it+1)^2) -- i.e. that it is
+        floor(sqrt(b)) -- and only then is it replaced by the constant (which keeps the later queries polynomial)."""
+        c = ctx()
+        it = c.extra['ring']
+        src = real_np.ndarray.view(npshim.asarray(values), real_np.ndarray)
+        o = real_np.empty(src.shape, dtype=object)
+        for idx in real_np.ndindex(*src.shape):
+            v = core.lift(src[idx])
+            c.prove(v.e == it, 'the ring index computed by the decoder is floor(sqrt(cell)): cell it^2 + ir, 0 <= ir <= 2 it, belongs to ring it',
+                    key='euler:ring')
+            o[idx] = float(it) if dt == 'f8' else int(it)
+        return arrays.as_sarr(o, dt)
+
     def floor_conc(x):
-        """floor(sqrt(b)) of the in-cap cell index b: within a work item b is confined to
-        [it^2, (it+1)^2), so the value is the ring index it (integer square-root fact used by the harness)."""
-        x = npshim.asarray(x)
-        o = real_np.empty(x.shape, dtype=object)
-        o[...] = float(ctx().extra['ring'])
-        return arrays.as_sarr(o, 'f8')
+        """np.floor of a (symbolic) real: a fresh integer k with k <= x < k + 1; then observed as the ring index."""
+        c = ctx()
+        src = real_np.ndarray.view(npshim.asarray(x), real_np.ndarray)
+        o = real_np.empty(src.shape, dtype=object)
+        for idx in real_np.ndindex(*src.shape):
+            xr = core.lift(src[idx]).as_real()
+            k = c.fresh(z3.IntSort(), 'floor')
+            c.add(z3.And(z3.ToReal(k) <= xr, xr < z3.ToReal(k) + 1))
+            o[idx] = Sym(k)
+        return ring_observed(o, 'f8')
+
+    def searchsorted_ring(a, v, side='left'):
+        return ring_observed(npshim.searchsorted(a, v, side), 'i8')
 
     def trig(which):
         def f(x):
@@ -79,7 +102,7 @@ def make_ns():
                 tot = tot + src[i, j] * src[i, j]
             real_np.ndarray.__setitem__(o, i, core.sym_sqrt(core.lift(tot)))
         return o
-    d.update(floor=floor_conc, cos=trig('cos'), sin=trig('sin'), linalg=types.SimpleNamespace(norm=norm))
+    d.update(floor=floor_conc, searchsorted=searchsorted_ring, cos=trig('cos'), sin=trig('sin'), linalg=types.SimpleNamespace(norm=norm))
     return npshim._Namespace('np', d)
 
 
@@ -244,6 +267,17 @@ if 'other' in case:
 codes = np.array([(cap * 121 + it * it + ir) * 45 + iaz for ir in range(2 * it + 1) for iaz in range(45)], dtype=np.uint16)
 minor, middle, major = _unpack_euler16(codes)
 bad = []
+# ring placement per the format: the in-cap cell b = it^2 + ir lies on ring it = floor(sqrt(b)), whose latitude fixes the ratio
+# of the two largest major-axis components, yy/zz = T(it), and the third is xx = r*yy with r = (ir+1/2)/(it+1/2) - 1 in (-1, 1)
+from abacusnbody.data.compaso_halo_catalog import EULER_NORM, EULER_TBIN
+t0 = (it + 0.5) / EULER_TBIN / EULER_NORM
+T = t0 * np.sqrt(2.0 - t0 * t0) / (1.0 - t0 * t0)
+srt = np.sort(np.abs(major), axis=1)
+irs = np.repeat(np.arange(2 * it + 1), 45)
+dev = np.abs(srt[:, 1] / srt[:, 2] - T)
+if not dev.max() < 1e-9: bad.append(f'ring latitude: |yy|/|zz| of the major axis deviates from T(ring {{it}}) = {{T}} by {{dev.max()}} (cell decoded on another ring), e.g. code {{int(codes[np.argmax(dev)])}}')
+rdev = np.abs(srt[:, 0] / srt[:, 1] - np.abs((irs + 0.5) / (it + 0.5) - 1.0))
+if not rdev.max() < 1e-9: bad.append(f'in-ring coordinate: |xx|/|yy| deviates from |(ir+1/2)/(it+1/2) - 1| by {{rdev.max()}}, e.g. code {{int(codes[np.argmax(rdev)])}}')
 def chk(name, arr, want):
     err = np.abs(arr - want).max()
     if not err < 1e-9: bad.append(f'{{name}}: max deviation {{err}} at code {{int(codes[np.argmax(np.abs(arr - want))])}}')
